@@ -316,7 +316,7 @@ func countedLoop(an *ir.Analysis, h *ssa.BasicBlock) *Loop {
 			case l.Op == "range" && s0 == -1:
 				l.Trip = l.Bound // len(x)
 			}
-			if (l.Op == "<" || l.Op == "!=") && s0 == 0 && l.Bound.Op == "len" {
+			if (l.Op == "<" || l.Op == "!=" || l.Op == "rot<") && s0 == 0 && l.Bound.Op == "len" {
 				l.RangeOver, l.indexForm = l.Bound.Args[0], true
 			}
 		}
